@@ -1,6 +1,8 @@
 import EAO.Driver.Core
 import EAO.Driver.Grid
 import EAO.Driver.OrderBook
+import EAO.Driver.Contract
+import EAO.Driver.Storage
 /-!
 Line-protocol driver: one JSON request per line on stdin, one JSON response per line on stdout.
 `{"ok": …}` or `{"err": "<class>"}`.  Unknown or ill-formed requests are answered with
@@ -10,7 +12,7 @@ operations it knows.
 open Lean EAO EAO.Driver
 
 def handlers : List (String → Json → Option (Except String Json)) :=
-  [handleCore, handleGrid, handleOrderBook]
+  [handleCore, handleGrid, handleOrderBook, handleContract, handleStorage]
 
 def handle (j : Json) : Except String Json := do
   let op ← field j "op" Json.getStr?
